@@ -49,6 +49,10 @@ def variants(name, f):
     mts = [p for p, d in sig.parameters.items() if p.endswith('matype') and isinstance(d.default, int)]
     if mts:
         v['ema-matype'] = {p: 1 for p in mts}
+        if name in ('stoch', 'stochf', 'kdj'):
+            # smoothing kernels that treat undefined input values themselves (the raw %K is 0/0 on a flat window)
+            for mt, nm in ((16, 'gauss'), (28, 'hwma'), (33, 'maaq')):
+                v['%s-matype' % nm] = {p: mt for p in mts}
     if name in SMALL_OVERRIDE:
         if SMALL_OVERRIDE[name]:
             v['small'] = dict(SMALL_OVERRIDE[name])
